@@ -62,8 +62,18 @@ pub fn parse_line(out: &mut dyn Write, bytes: &[u8], hist: &mut BTreeMap<String,
     let res = match r {
         Ok(Ok(b)) => {
             *hist.entry("Ok".into()).or_default() += 1;
-            // the accepted board must be usable: generate its moves (a panic here is caught as TRAP2)
-            match catch_unwind(AssertUnwindSafe(|| sorted_moves(&b).len())) {
+            // the accepted board must be usable: generate its moves, play each of them, print and re-generate on every child
+            // (a panic anywhere here is caught as TRAP2)
+            match catch_unwind(AssertUnwindSafe(|| {
+                let l = sorted_moves(&b);
+                let mut acc = l.len();
+                for m in &l {
+                    if let Some(c) = b.move_new(*m) {
+                        acc += format!("{c:?}").len() + c.to_string().len() + sorted_moves(&c).len();
+                    }
+                }
+                acc
+            })) {
                 Ok(_) => ok_fields(&b),
                 Err(_) => "TRAP2\t-\t0\t0\t0\t0".into(),
             }
@@ -162,6 +172,36 @@ pub fn run(out: &mut dyn Write, rng: &mut Rng, n: usize, mutation_seeds: usize) 
                         }
                     }
                     parse_line(out, format!("{t} {turn} {right} - 0 1").as_bytes(), &mut hist);
+                }
+            }
+        }
+    }
+    // stream 1e: en-passant markers with every kind of occupant on the victim square and on the marker square, capturers on both sides
+    for (turn, vr, mr, own_p, opp_p) in [("w", 4usize, 5usize, 'P', 'p'), ("b", 3, 2, 'p', 'P')] {
+        for f in 0..8usize {
+            for victim in [Some(opp_p), Some(own_p), Some(if own_p == 'P' { 'n' } else { 'N' }), Some(if own_p == 'P' { 'N' } else { 'n' }), None] {
+                for marker_occ in [None, Some(opp_p), Some(own_p)] {
+                    let mut cells: Vec<Option<char>> = vec![None; 64];
+                    cells[4] = Some('K');
+                    cells[60] = Some('k');
+                    cells[vr * 8 + f] = victim;
+                    cells[mr * 8 + f] = marker_occ;
+                    if f > 0 { cells[vr * 8 + f - 1] = Some(own_p); }
+                    if f < 7 { cells[vr * 8 + f + 1] = Some(own_p); }
+                    let mut t = String::new();
+                    for r in (0..8).rev() {
+                        let mut missing = 0;
+                        for ff in 0..8 {
+                            match cells[r * 8 + ff] {
+                                Some(c) => { if missing > 0 { t.push_str(&missing.to_string()); missing = 0; } t.push(c); }
+                                None => missing += 1,
+                            }
+                        }
+                        if missing > 0 { t.push_str(&missing.to_string()); }
+                        if r != 0 { t.push('/'); }
+                    }
+                    let sq = format!("{}{}", (b'a' + f as u8) as char, mr + 1);
+                    parse_line(out, format!("{t} {turn} - {sq} 0 1").as_bytes(), &mut hist);
                 }
             }
         }
